@@ -292,6 +292,18 @@ class Ctx:
             if cur.snap is not None:
                 self.model.set_state(cur.snap)
                 self.stats["setstate_inside_callback"] += 1
+        elif k == "seterr":
+            # more process state the user controls: NumPy's floating-point error handling and the warnings filter.
+            # With 'raise'/'error' a call may legitimately fail where it returned before, so results are only compared
+            # within one such epoch (the RNG, input and operator invariants keep holding across it).
+            np.seterr(all=act[1])
+            self.stats["user_seterr_changes"] += 1
+            self.new_epoch("seterr:" + act[1])
+        elif k == "warnfilter":
+            import warnings
+            warnings.simplefilter(act[1])
+            self.stats["user_warnfilter_changes"] += 1
+            self.new_epoch("warn:" + act[1])
         elif k == "loglevel":
             # process state the user controls (S5): the level of the root logger
             import logging
@@ -425,6 +437,10 @@ class Ctx:
                 except Exception:
                     pass
                 self.harness_depth += 1
+                # the observer looks at values under a neutral numeric environment, whatever the user has set in the run
+                import warnings
+                np.seterr(all="warn")
+                warnings.simplefilter("ignore")
                 try:
                     out = {"ok": fn()}
                 except Violation as v:
@@ -740,6 +756,11 @@ class Ctx:
         self.events.append(("mkalg", step["id"], step["cls"]))
         self.sched_sig.append("mkalg:" + step["cls"])
 
+    def new_epoch(self, tag):
+        self.import_epoch = self.import_epoch + [tag]
+        self.results_by_epoch.update({"|".join(self.import_epoch[:-1]) + "#" + k: v for k, v in self.results.items()})
+        self.results = {}
+
     def op_import(self, step, out_step):
         import importlib
         try:
@@ -749,9 +770,7 @@ class Ctx:
             pass
         # importing an optional module may legitimately register more dispatch rules under shared names
         # (sqrt / inverse of Nystrom preconditioners): results are only compared within one import epoch
-        self.import_epoch = self.import_epoch + [step["module"].rsplit(".", 1)[-1]]
-        self.results_by_epoch.update({"|".join(self.import_epoch[:-1]) + "#" + k: v for k, v in self.results.items()})
-        self.results = {}
+        self.new_epoch(step["module"].rsplit(".", 1)[-1])
         self.events.append(("import", sid_of(step), step["module"]))
         self.sched_sig.append("import")
         self.check_invariants(step["id"], "import step %d" % step["id"])
